@@ -198,7 +198,12 @@ def manual_boards(ctx):
          dict(L=3, W=1, moves=[[0], [3], [2]], rewards=[[1], [0], [5]], loose=[[1], [0], [1]]),
          dict(L=2, W=2, moves=[[3, 1], [2, 0]], rewards=[[6, 0], [1, 2]], loose=[[0, 1], [1, 0]]),
          dict(L=3, W=3, moves=[[1, 1, 3], [0, 2, 1], [1, 3, 1]], rewards=[[0, 1, 2], [3, 4, 5], [6, 0, 1]],
-              loose=[[0, 0, 1], [1, 0, 0], [0, 1, 0]])]
+              loose=[[0, 0, 1], [1, 0, 0], [0, 1, 0]]),
+         # a hand board whose rows are tuples (as legal a matrix as a list of lists)
+         dict(L=2, W=3, moves=((1, 0, 3), (2, 1, 1)), rewards=((1, 2, 3), (4, 5, 6)), loose=((0, 1, 0), (1, 0, 1))),
+         # a whole reward no double can hold (2**53 + 1): it is written as it is; outside the binary64 Coq instance, so the
+         # independent Python rule game (exact) is the judge
+         dict(L=1, W=2, moves=[[1, 3]], rewards=[[2 ** 53 + 1, 10 ** 17 + 1]], loose=[[0, 1]], no_model=True)]
     probs = [(0.1, 0.1, 0.1), (0.01, 0.5, 0.99), (0.29, 0.57, 0.58), (0.99, 0.01, 0.5)]
     return [dict(x, prb=probs[k % 4][0], plb=probs[k % 4][1], ptb=probs[k % 4][2]) for k, x in enumerate(b)]
 
@@ -233,7 +238,7 @@ def build_entry_items(ctx, tag):
                 games = dec(r["read"])
             except Exception:   # noqa: BLE001
                 games = None
-        items.append(dict(case=c, src="manual", res=r, games=games, text=r.get("text"), model=True))
+        items.append(dict(case=c, src="manual", res=r, games=games, text=r.get("text"), model=not c.get("no_model")))
     return items
 
 
